@@ -1,7 +1,9 @@
 (* C10 runner: replays the Dutch-auction traces on the extracted model (DutchV2), diffs the
    projections after every step, evaluates the extracted holds_C10_* predicates on the
    IMPLEMENTATION's observations and classifies failures by the kf_C10_* predicates (only kf_C10_1 is
-   left: C10-F2 and C10-F3 are repaired, a recurrence is a plain violation). *)
+   left for generation 2: C10-F2, C10-F3, C10-F5 and C10-F6 are repaired, a recurrence is a plain violation).
+   A block tick is the real auctionsV2.BeginBlocker: the price update of every auction, then the automatic
+   fill of limit bids (one LimitOrderBid closure per auction, in auction order) - both replayed. *)
 open Conv
 open DutchV2
 
@@ -80,12 +82,17 @@ let acct_ids = [| coq_AUC_C; coq_AUC_D; coq_OWN_C; coq_COL_D; coq_KEE_D; coq_INI
 let acct_names = [| "auc_c"; "auc_d"; "own_c"; "col_d"; "kee_d"; "ini_d"; "nul_d"; "liq_d"; "brn_d"; "pool_d";
                     "b0_c"; "b0_d"; "b1_c"; "b1_d"; "b2_c"; "b2_d" |]
 
-type lobs = { bals : BinNums.coq_Z array; rfound : bool; ramt : BinNums.coq_Z; xf : BinNums.coq_Z }
+type lobs = { bals : BinNums.coq_Z array; rfound : bool; ramt : BinNums.coq_Z; xf : BinNums.coq_Z;
+              pfound : bool; pool : BinNums.coq_Z; nffound : bool; nf : BinNums.coq_Z }
 
 let parse_L toks =
   let arr = Array.of_list toks in
-  if Array.length arr < nacct + 3 then failwith "short L line";
-  { bals = Array.init nacct (fun i -> z arr.(i)); rfound = bool_of_tok arr.(nacct); ramt = z arr.(nacct + 1); xf = z arr.(nacct + 2) }
+  if Array.length arr < nacct + 7 then failwith "short L line";
+  { bals = Array.init nacct (fun i -> z arr.(i)); rfound = bool_of_tok arr.(nacct); ramt = z arr.(nacct + 1); xf = z arr.(nacct + 2);
+    pfound = bool_of_tok arr.(nacct + 3); pool = z arr.(nacct + 4); nffound = bool_of_tok arr.(nacct + 5); nf = z arr.(nacct + 6) }
+
+(* a user bid created in the step: id, auction, bidder, debt amount bid, collateral amount sent *)
+type ubid = { uaid : string; uwho : int; udebt : BinNums.coq_Z; ucoll : BinNums.coq_Z }
 
 let ledger_of (o : lobs) : ledger =
   let l = ref (fun _ -> zzero) in
@@ -100,7 +107,14 @@ let run (path : string) =
   let cases = ref 0 and steps = ref 0 and nontrivial = ref 0 in
   let case = ref "" and step = ref 0 in
   let cf = ref { c_premium = zzero; c_disc = zzero; c_dur = zzero; c_minusd = zzero; c_ki = zzero; c_dc = zzero; c_dd = zzero } in
-  let st = ref { led = (fun _ -> zzero); rsv = None; xfee = zzero } in
+  let st = ref { led = (fun _ -> zzero); rsv = None; xfee = zzero; nfee = zzero } in
+  let bk : book ref = ref (fun _ _ -> zzero) and pool = ref zzero in          (* the model's limit-bid book *)
+  let order : BinNums.coq_Z list ref = ref [] in
+  let keys : (string * string) list ref = ref [] in                           (* (premium, who) ever deposited to *)
+  let curR : ((string * string) * BinNums.coq_Z) list ref = ref [] and prevR = ref [] in
+  let curU : ubid list ref = ref [] and curP : (string * (BinNums.coq_Z * BinNums.coq_Z)) list ref = ref [] in
+  let rebased_now = ref false in
+  let tick_twa = ref zzero in
   let live : mauc list ref = ref [] in
   let rebase = ref true in                   (* the next L line defines the model ledger (after start ops) *)
   let prevL : lobs option ref = ref None in  (* implementation, previous observation *)
@@ -125,16 +139,34 @@ let run (path : string) =
         end_case ();
         case := id; step := 0;
         cf := { c_premium = z prem; c_disc = z dsc; c_dur = z du; c_minusd = z mu; c_ki = z ki; c_dc = z dc; c_dd = z dd };
-        st := { led = (fun _ -> zzero); rsv = None; xfee = zzero };
+        st := { led = (fun _ -> zzero); rsv = None; xfee = zzero; nfee = zzero };
+        bk := (fun _ _ -> zzero); pool := zzero; order := []; keys := []; curR := []; prevR := []; curU := []; curP := [];
+        rebased_now := false;
         live := []; rebase := true; prevL := None; prevA := []; curA := []; curL := None;
         Hashtbl.reset targets; Hashtbl.reset sums; last_bid := None; last_tick := false; good_bid := false;
         Buffer.clear sig_; Buffer.add_string sig_ (S.concat " " [prem; dsc; du; mu; ki; dc; dd]);
         ()
-      | "op" :: "start" :: aid :: coll :: target :: fee :: bonus :: init :: intk :: cmst :: now :: ac :: pc :: ad :: pd :: cls :: _ ->
+      | "order" :: ws -> order := L.map z ws
+      | "op" :: "dep" :: who :: prem :: amt :: wrong :: cls :: _ ->
+        incr step; incr steps; bump "op:dep"; bump ("dep:" ^ cls);
+        Buffer.add_string sig_ (";D" ^ who ^ ":" ^ prem ^ ":" ^ amt ^ wrong);
+        if not (L.mem (prem, who) !keys) then keys := !keys @ [ (prem, who) ];
+        (match deposit !st !bk !pool (z who) (z prem) (z amt) (bool_of_tok wrong) with
+         | Base.Ok ((s', bk'), pool') ->
+           if cls <> "ok" then mismatch ~case:!case ~step:!step ~field:"dep.result" ~model:"ok" ~impl:cls
+           else begin st := s'; bk := bk'; pool := pool' end
+         | Base.Err c ->
+           bump ("dep:err" ^ zs c);
+           if cls <> "err" then mismatch ~case:!case ~step:!step ~field:"dep.result" ~model:("err" ^ zs c) ~impl:cls
+         | Base.Panic -> if cls <> "panic" then mismatch ~case:!case ~step:!step ~field:"dep.result" ~model:"panic" ~impl:cls);
+        last_bid := None; last_tick := false
+      | "op" :: "start" :: aid :: coll :: target :: fee :: bonus :: init :: intk :: cmst :: now :: ac :: pc :: ad :: pd :: cls :: more ->
         incr step; incr steps; bump "op:start"; bump ("start:init=" ^ init);
         Buffer.add_string sig_ (";S" ^ init ^ ":" ^ coll ^ ":" ^ target);
         let lk = { l_coll = z coll; l_target = z target; l_fee = z fee; l_bonus = z bonus; l_init = z init;
-                   l_intk = bool_of_tok intk; l_cmst = bool_of_tok cmst } in
+                   l_intk = bool_of_tok intk; l_cmst = bool_of_tok cmst;
+                   l_stuck = (match more with st :: _ -> bool_of_tok st | [] -> false) } in
+        if lk.l_stuck then bump "start:lend_bridged_position_gone";
         Hashtbl.replace targets aid lk;
         (match activate !cf lk (z now) (zopt ac pc) (zopt ad pd) with
          | Base.Ok a -> live := !live @ [ { aid; lk; au = a; ipaid = zzero; irecv = zzero } ]
@@ -149,6 +181,24 @@ let run (path : string) =
         Buffer.add_string sig_ (";T" ^ now ^ ac ^ ad);
         if cls <> "ok" then mismatch ~case:!case ~step:!step ~field:"tick.result" ~model:"ok" ~impl:cls;
         L.iter (fun m -> m.au <- tick !cf m.lk (z now) (zopt ac pc) (zopt ad pd) m.au) !live;
+        (* LimitOrderBid: one closure per auction, in auction order; an error or a panic rolls the closure back *)
+        let closed = ref [] in
+        L.iter (fun m ->
+            match fill_closure !cf m.lk !order (z pd) (bool_of_tok ad) m.au !st !bk !pool with
+            | Base.Ok ((((s', a'), bk'), pool'), log) ->
+              st := s'; bk := bk'; pool := pool';
+              (match a' with Some a -> m.au <- a | None -> closed := m.aid :: !closed);
+              if log <> [] then begin
+                bump "fill:closure"; bump (Printf.sprintf "fill:bids=%d" (L.length log));
+                (match a' with None -> bump "fill:closing" | Some _ -> bump "fill:partial");
+                L.iter (fun e ->
+                    if e.fb_res.r_exh then bump "fill:bid_cut_to_collateral";
+                    if BinInt.Z.gtb e.fb_res.r_topup zzero then bump "fill:reserve_topup") log
+              end
+            | Base.Err c -> bump ("fill:rolled_back_err" ^ zs c)
+            | Base.Panic -> bump "fill:rolled_back_panic") !live;
+        live := L.filter (fun x -> not (L.mem x.aid !closed)) !live;
+        tick_twa := z pd;
         last_bid := None; last_tick := true
       | "op" :: "bid" :: aid :: who :: amt :: wrong :: twa :: dact :: cls :: _ ->
         incr step; incr steps; bump "op:bid"; bump ("bid:" ^ cls); bump ("bid:debt_price_active=" ^ dact);
@@ -169,7 +219,10 @@ let run (path : string) =
               bump ("bid:err" ^ zs c);
               if cls <> "err" then mismatch ~case:!case ~step:!step ~field:"bid.result" ~model:("err" ^ zs c) ~impl:cls
             | Base.Panic ->
-              if cls <> "panic" then mismatch ~case:!case ~step:!step ~field:"bid.result" ~model:"panic" ~impl:cls));
+              if cls <> "panic" then mismatch ~case:!case ~step:!step ~field:"bid.result" ~model:"panic" ~impl:cls
+              else if kf_C10_7 m.lk then
+                (* a bid that would close the auction panics in MsgCloseDutchAuctionForBorrow: the auction can never end *)
+                predfail ~case:!case ~step:!step ~pred:"lend_close_completes" ~kf:"kf_C10_7" ~detail:("aid=" ^ aid ^ "_amount=" ^ amt)));
         (* a panicking bid is a refused message (baseapp recovers, the cache context is dropped): the
            property does not forbid it, so it is NOT a predicate failure by itself - demanding
            "a bid never panics" was more than C10 states (seen in the thorough tier: a bid whose
@@ -181,10 +234,13 @@ let run (path : string) =
         last_bid := Some (aid, int_of_string who, cls, z twa); last_tick := false
       | "L" :: rest ->
         let o = parse_L rest in
-        curL := Some o; curA := [];
+        curL := Some o; curA := []; curR := []; curU := [];
         if !rebase then begin
-          st := { led = ledger_of o; rsv = (if o.rfound then Some o.ramt else None); xfee = o.xf }; rebase := false
+          st := { led = ledger_of o; rsv = (if o.rfound then Some o.ramt else None); xfee = o.xf; nfee = o.nf }; rebase := false;
+          rebased_now := true
         end else begin
+          if not (zeq !st.nfee o.nf) then mismatch ~case:!case ~step:!step ~field:"netfee" ~model:(zs !st.nfee) ~impl:(zs o.nf);
+          if not (zeq !pool o.pool) then mismatch ~case:!case ~step:!step ~field:"limit_pool" ~model:(zs !pool) ~impl:(zs o.pool);
           Array.iteri (fun i id ->
               let mv = !st.led id in
               if not (zeq mv o.bals.(i)) then
@@ -194,6 +250,9 @@ let run (path : string) =
           if mr <> ir then mismatch ~case:!case ~step:!step ~field:"reserve" ~model:mr ~impl:ir;
           if not (zeq !st.xfee o.xf) then mismatch ~case:!case ~step:!step ~field:"xfee" ~model:(zs !st.xfee) ~impl:(zs o.xf)
         end
+      | "R" :: prem :: who :: amt :: _ -> curR := !curR @ [ ((prem, who), z amt) ]
+      | "U" :: _id :: aid :: who :: debt :: coll :: _ -> curU := !curU @ [ { uaid = aid; uwho = int_of_string who; udebt = z debt; ucoll = z coll } ]
+      | "P" :: aid :: price :: pco :: _ -> curP := (aid, (z price, z pco)) :: (L.remove_assoc aid !curP)
       | "A" :: aid :: coll :: debt :: bonus :: price :: init :: pco :: pdo :: s :: e :: _ ->
         curA := !curA @ [ (aid, { a_coll = z coll; a_debt = z debt; a_bonus = z bonus; a_price = z price; a_init = z init;
                                   a_pco = z pco; a_pdo = z pdo; a_start = z s; a_end = z e }) ]
@@ -203,7 +262,94 @@ let run (path : string) =
         let is = S.concat "|" (L.map (fun (aid, a) -> aid ^ ":" ^ show_au a) !curA) in
         if ms <> is then mismatch ~case:!case ~step:!step ~field:"auctions" ~model:ms ~impl:is;
         let o = (match !curL with Some o -> o | None -> failwith "E without L") in
+        let rec_of l k = (match L.assoc_opt k l with Some v -> v | None -> zzero) in
+        (* ---- correspondence on the limit-bid book *)
+        if !rebased_now then begin
+          let snapshot = !curR in
+          bk := (fun p w -> rec_of snapshot (zs p, zs w)); pool := o.pool; rebased_now := false
+        end else
+          L.iter (fun ((p, w) as k) ->
+              let mv = !bk (z p) (z w) and iv = rec_of !curR k in
+              if not (zeq mv iv) then mismatch ~case:!case ~step:!step ~field:("limit_bid[" ^ p ^ "," ^ w ^ "]") ~model:(zs mv) ~impl:(zs iv)) !keys;
+        let rec_sum = L.fold_left (fun acc (_, v) -> zadd acc v) zzero !curR in
         (* ---- predicates on the IMPLEMENTATION's observations *)
+        if not (holds_C10_pool o.pool rec_sum) then
+          predfail ~case:!case ~step:!step ~pred:"holds_C10_pool" ~kf:"none" ~detail:("bid_value=" ^ zs o.pool ^ "_records=" ^ zs rec_sum);
+        (* the fills of a block: the user bids the block created, per auction in order, at the price the block posted *)
+        (match !last_tick, !prevL with
+         | true, Some _ when !curU <> [] ->
+           let aids = L.fold_left (fun acc u -> if L.mem u.uaid acc then acc else acc @ [ u.uaid ]) [] !curU in
+           let prem_of_aid = Hashtbl.create 4 in
+           L.iter (fun aid ->
+               let bids = L.filter (fun u -> u.uaid = aid) !curU in
+               match L.assoc_opt aid !prevA, Hashtbl.find_opt targets aid, L.assoc_opt aid !curP with
+               | Some pa, Some lk, Some (price, pco) ->
+                 good_bid := true;
+                 let pd = if lk.l_cmst then DecArith.dec_of_int (z "1000000") else DecArith.dec_of_int !tick_twa in
+                 (match premium_of { pa with a_price = price; a_pco = pco } with
+                  | Base.Ok (Some pr) -> Hashtbl.replace prem_of_aid aid (zs pr)
+                  | _ -> ());
+                 let n = L.length bids in
+                 let coll = ref pa.a_coll and debt = ref pa.a_debt in
+                 L.iteri (fun i u ->
+                     let closed = (i = n - 1) && not (L.mem_assoc aid !curA) in
+                     bump "fill:observed_bid";
+                     if not (holds_C10_bid !cf.c_dc !cf.c_dd price pd !coll !debt pa.a_bonus u.udebt u.ucoll closed) then
+                       predfail ~case:!case ~step:!step ~pred:"holds_C10_bid" ~kf:"none"
+                         ~detail:("fill_aid=" ^ aid ^ "_who=" ^ string_of_int u.uwho ^ "_paid=" ^ zs u.udebt ^ "_recv=" ^ zs u.ucoll ^ "_closed=" ^ tok_of_bool closed);
+                     coll := zsub !coll u.ucoll; debt := zsub !debt u.udebt;
+                     let (sp, sr) = (try Hashtbl.find sums aid with Not_found -> (zzero, zzero)) in
+                     let sp = zadd sp u.udebt and sr = zadd sr u.ucoll in
+                     Hashtbl.replace sums aid (sp, sr);
+                     if not (holds_C10_totals lk.l_target lk.l_coll sp sr) then
+                       predfail ~case:!case ~step:!step ~pred:"holds_C10_totals" ~kf:"none"
+                         ~detail:("fill_aid=" ^ aid ^ "_paid=" ^ zs sp ^ "_recv=" ^ zs sr)) bids;
+                 (* what the auction record says after the block must be what the bids left *)
+                 (match L.assoc_opt aid !curA with
+                  | Some ca ->
+                    if not (zeq ca.a_debt !debt) || not (zeq ca.a_coll !coll) then
+                      predfail ~case:!case ~step:!step ~pred:"holds_C10_fill_record" ~kf:"none"
+                        ~detail:("aid=" ^ aid ^ "_debt=" ^ zs ca.a_debt ^ "_expected=" ^ zs !debt ^ "_coll=" ^ zs ca.a_coll ^ "_expected=" ^ zs !coll)
+                  | None -> ())
+               | _ -> bump "fill:observed_without_posted_price") aids;
+           (* every limit bid falls by exactly what its automatic bids bid *)
+           L.iter (fun ((p, w) as k) ->
+               let before = rec_of !prevR k and after = rec_of !curR k in
+               let bid_sum = L.fold_left (fun acc u ->
+                   if string_of_int u.uwho = w && (match Hashtbl.find_opt prem_of_aid u.uaid with Some pr -> pr = p | None -> false)
+                   then zadd acc u.udebt else acc) zzero !curU in
+               if not (holds_C10_fill_charge before after bid_sum) then
+                 predfail ~case:!case ~step:!step ~pred:"holds_C10_fill_charge" ~kf:"none"
+                   ~detail:("premium=" ^ p ^ "_who=" ^ w ^ "_record_before=" ^ zs before ^ "_after=" ^ zs after ^ "_bid=" ^ zs bid_sum)) !keys
+         | true, Some _ ->
+           (* a block without automatic bids moves no limit bid *)
+           L.iter (fun ((p, w) as k) ->
+               let before = rec_of !prevR k and after = rec_of !curR k in
+               if not (holds_C10_fill_charge before after zzero) then
+                 predfail ~case:!case ~step:!step ~pred:"holds_C10_fill_charge" ~kf:"none"
+                   ~detail:("premium=" ^ p ^ "_who=" ^ w ^ "_record_before=" ^ zs before ^ "_after=" ^ zs after ^ "_no_bid")) !keys
+         | _ -> ());
+        (* the penalty of the auctions closed in this step (a bid or a block): collector share + keeper share, net-fee book *)
+        (match !prevL with
+         | Some pl when !last_tick || (match !last_bid with Some (_, _, "ok", _) -> true | _ -> false) ->
+           let gone = L.filter (fun (aid, _) -> not (L.mem_assoc aid !curA)) !prevA in
+           let dcol = zsub o.bals.(3) pl.bals.(3) and dkee = zsub o.bals.(4) pl.bals.(4) and dnf = zsub o.nf pl.nf in
+           let lks = L.filter_map (fun (aid, _) -> Hashtbl.find_opt targets aid) gone in
+           let check init fee =
+             if not (holds_C10_penalty init fee dcol dkee dnf) then
+               predfail ~case:!case ~step:!step ~pred:"holds_C10_penalty" ~kf:"none"
+                 ~detail:("init=" ^ zs init ^ "_penalty=" ^ zs fee ^ "_collector=" ^ zs dcol ^ "_keeper=" ^ zs dkee ^ "_netfees=" ^ zs dnf) in
+           (match lks with
+            | [] -> check (z "1") zzero
+            | [ lk ] ->
+              bump ("close:init=" ^ zs lk.l_init);
+              if zs lk.l_init = "0" && lk.l_intk && BinInt.Z.gtb dkee zzero then bump "close:keeper_incentive_paid";
+              check lk.l_init lk.l_fee
+            | _ ->
+              if L.for_all (fun lk -> zs lk.l_init = "0") lks then check zzero (L.fold_left (fun acc lk -> zadd acc lk.l_fee) zzero lks)
+              else if L.for_all (fun lk -> zs lk.l_init <> "0") lks then check (z "1") zzero
+              else bump "close:mixed_multi_close_skipped")
+         | _ -> ());
         (* price clauses, between consecutive observations with the same StartTime *)
         if !last_tick then
           L.iter (fun (aid, a) ->
@@ -249,13 +395,13 @@ let run (path : string) =
             | Some lk -> zadd acc (zsub lk.l_target a.a_debt)
             | None -> acc) zzero !curA in
         let res_c = zsub o.bals.(0) sum_c in
-        let res_d = zsub (zsub o.bals.(1) sum_d) o.xf in
+        let res_d = zsub (zsub (zsub o.bals.(1) sum_d) o.xf) rec_sum in
         if not (holds_C10_custody res_c res_d) then
-          predfail ~case:!case ~step:!step ~pred:"holds_C10_custody" ~kf:"none" ~detail:("res_c=" ^ zs res_c ^ "_res_d=" ^ zs res_d);
+          predfail ~case:!case ~step:!step ~pred:"holds_C10_custody" ~kf:"none" ~detail:("res_c=" ^ zs res_c ^ "_res_d=" ^ zs res_d ^ "_limit_bids=" ^ zs rec_sum ^ "_booked_fees=" ^ zs o.xf);
         (* the app reserve record is never negative and is backed by the liquidation module's balance *)
         if o.rfound && not (holds_C10_reserve o.ramt o.bals.(7)) then
           predfail ~case:!case ~step:!step ~pred:"holds_C10_reserve" ~kf:"none" ~detail:("record=" ^ zs o.ramt ^ "_liq_balance=" ^ zs o.bals.(7));
-        prevL := Some o; prevA := !curA
+        prevL := Some o; prevA := !curA; prevR := !curR; curP := []
       | _ -> ()) lines;
   end_case ();
   finish ~cases:!cases ~steps:!steps ~nontrivial:!nontrivial
